@@ -2,7 +2,9 @@ package main
 
 import (
 	"context"
+	"database/sql"
 	"fmt"
+	"io"
 	"math/big"
 	"sync"
 	"time"
@@ -38,11 +40,14 @@ type Step struct {
 }
 
 type procState struct {
-	req      Req
-	started  bool
-	returned bool
-	resp     Resp
-	logID    int64 // id of the log it chained in the current generation (-1: none)
+	cancel       context.CancelFunc
+	cancelled    bool
+	triedBlocked bool
+	req          Req
+	started      bool
+	returned     bool
+	resp         Resp
+	logID        int64 // id of the log it chained in the current generation (-1: none)
 }
 
 // world is one execution: a store that survives crashes and a sequence of
@@ -70,10 +75,26 @@ type world struct {
 	nStuck   int
 	nSkipped int
 	nDiverge int
+	closed   bool
+	flavour  int
+	survived bool
 }
 
+// errors a database driver may return from a failing InsertLogs: whatever the
+// error, nothing must be acknowledged
+var failureFlavours = []error{
+	vstore.ErrInjected,
+	fmt.Errorf("inserting logs: %w", context.Canceled),
+	fmt.Errorf("inserting logs: %w", context.DeadlineExceeded),
+	sql.ErrConnDone,
+	io.ErrUnexpectedEOF,
+	sql.ErrTxDone,
+}
+
+var flavourCounter int
+
 func seedLogs() []*ledger.ChainedLog {
-	tx0 := ledger.NewTransaction().WithPostings(ledger.NewPosting("world", "a", asset, big.NewInt(1))).WithIDUint64(0)
+	tx0 := ledger.NewTransaction().WithPostings(ledger.NewPosting("world", "a", asset, big.NewInt(3))).WithIDUint64(0)
 	tx0.Metadata = metadata.Metadata{}
 	l0 := ledger.NewTransactionLog(tx0, map[string]metadata.Metadata{}).ChainLog(nil)
 	l1 := ledger.NewSetMetadataOnAccountLog(ledger.Now(), "m", metadata.Metadata{"payer": "a"}).ChainLog(l0)
@@ -106,6 +127,10 @@ func newWorld(w *tlaio.Writer, reqs map[string]Req, gated bool) *world {
 func (x *world) emit(m map[string]any) {
 	x.mu.Lock()
 	defer x.mu.Unlock()
+	if x.closed {
+		// a goroutine of an abandoned commander finishing late: not part of any execution
+		return
+	}
 	_ = x.w.Write(m)
 }
 
@@ -225,7 +250,9 @@ func (x *world) spawn(p string) {
 	ps := x.procs[p]
 	ps.started = true
 	cmd := x.cmd
-	x.s.Spawn(context.Background(), p, func(ctx context.Context) {
+	ctx, cancel := context.WithCancel(context.Background())
+	ps.cancel = cancel
+	x.s.Spawn(ctx, p, func(ctx context.Context) {
 		ps.resp = call(ctx, cmd, p, ps.req)
 	})
 }
@@ -264,14 +291,20 @@ func (x *world) stepProc(p string) string {
 	}
 	switch point {
 	case "lock.wait":
-		if !x.granted(p) {
+		if !x.granted(p) && !ps.cancelled {
 			x.nSkipped++
 			return ""
 		}
 	case "waitdone":
 		if !ps.req.Dry && (ps.logID < 0 || !x.persisted(ps.logID)) {
-			x.nSkipped++
-			return ""
+			// the request must stay blocked until its log is durable. Once per request,
+			// when its context has been cancelled, let it run anyway: a correct
+			// implementation keeps waiting (the watchdog expires, nothing is concluded)
+			if !(ps.cancelled || x.survived) || ps.triedBlocked {
+				x.nSkipped++
+				return ""
+			}
+			ps.triedBlocked = true
 		}
 	}
 	rep := x.s.Step(p)
@@ -292,6 +325,18 @@ func (x *world) stepProc(p string) string {
 	}
 	x.awaitGate()
 	return at
+}
+
+// cancelProc cancels the context of request p (its caller gave up).
+func (x *world) cancelProc(p string) bool {
+	ps := x.procs[p]
+	if ps == nil || !ps.started || ps.returned || ps.cancel == nil || ps.cancelled || ps.req.Gen != x.gen {
+		x.nSkipped++
+		return false
+	}
+	ps.cancelled = true
+	ps.cancel()
+	return true
 }
 
 func (x *world) persist() bool {
@@ -326,6 +371,8 @@ func (x *world) crash(applied bool) bool {
 		return false
 	}
 	if x.atGate != nil {
+		x.store.FailWith = failureFlavours[flavourCounter%len(failureFlavours)]
+		flavourCounter++
 		if applied {
 			x.decide(vstore.WriteThenDie)
 		} else {
@@ -333,8 +380,12 @@ func (x *world) crash(applied bool) bool {
 		}
 		select {
 		case <-x.runDone: // job.Runner panicked, as designed
-		case <-time.After(3 * time.Second):
-			x.nStuck++
+		case <-time.After(400 * time.Millisecond):
+			// the commander survived a failing InsertLogs: no crash happened. The execution
+			// goes on with the same commander; whatever it acknowledges now is judged.
+			x.survived = true
+			x.emit(map[string]any{"ev": "storefail-survived", "applied": applied})
+			return false
 		}
 	}
 	x.s.Kill()
@@ -374,7 +425,51 @@ func (x *world) drain() {
 	}
 }
 
+// restartAndProbe stops the commander cleanly, builds a new one over the store and
+// issues one transaction and one metadata write: whatever history came before,
+// the entries written after a restart must continue the chain and the
+// transaction ids. The probes appear in the trace as requests "probe1"/"probe2".
+func (x *world) restartAndProbe() {
+	if x.atGate != nil {
+		return
+	}
+	for _, ps := range x.procs {
+		if ps.req.Gen == x.gen && ps.started && !ps.returned {
+			return // something is still in flight: not a quiescent end state
+		}
+	}
+	x.s.Kill()
+	cmd := x.cmd
+	go func() { defer func() { _ = recover() }(); cmd.Close() }()
+	x.emit(map[string]any{"ev": "restart"})
+	x.gen += 100 // probes run in a generation of their own
+	if x.startGen() != nil {
+		return
+	}
+	probes := []Req{
+		{Kind: "create", Postings: []Posting{{Src: "world", Dst: "B", Amt: 1}}, Mode: "lit", Target: -1, Gen: x.gen},
+		{Kind: "setmeta", Tacct: "B", Mval: "v", Target: -1, Gen: x.gen},
+	}
+	for i, r := range probes {
+		p := fmt.Sprintf("probe%d", i+1)
+		x.reqs[p] = r
+		x.procs[p] = &procState{req: r, logID: -1}
+		for k := 0; k < 60; k++ {
+			if x.atGate != nil {
+				x.persist()
+			}
+			if x.procs[p].returned {
+				break
+			}
+			x.stepProc(p)
+		}
+	}
+}
+
 func (x *world) close() {
+	x.mu.Lock()
+	x.closed = true
+	x.mu.Unlock()
 	x.s.Kill()
 	if x.atGate != nil {
 		x.atGate.Decide <- vstore.Fail
